@@ -273,7 +273,11 @@ func (w *SrvWork) Start() {
 			if w.dotu {
 				ver = "9P2000.u"
 			}
-			if r := peer.Call(&Msg{Type: Tversion, Tag: NOTAG, Msize: uint32(w.x.C.cfg("cmsize")), Version: ver}); r == nil || r.M == nil || r.M.Type != Rversion {
+			cm := uint32(w.x.C.cfg("cmsize"))
+			if o := uint32(w.x.C.cfg("cmsize_other")); o != 0 && ci > 0 {
+				cm = o
+			}
+			if r := peer.Call(&Msg{Type: Tversion, Tag: NOTAG, Msize: cm, Version: ver}); r == nil || r.M == nil || r.M.Type != Rversion {
 				w.x.Violate("setup", "Tversion not answered with Rversion on conn %d", ci)
 				return
 			}
